@@ -185,6 +185,8 @@ def check_conc(prop, tier):
             # the single-threaded half of the quantifier: random histories over all kinds, judged by LevelSeq!P_C15
             n = 120 if tier == "quick" else 3000
             hq = [scen.seq_scenario(scen.seq_history(rng, rng.range(15, 45), nids=rng.choice([3, 4, 6]), monotone_ts=True, zero_ok=False, vary_px=(k % 2 == 1))) for k in range(n)]
+            for k in range(0, n, 2):
+                hq[k] = transformed(hq[k], k // 2, scale=False)      # arrival times far ahead of the clock, ULID ids
             # regression witness (D9): the instance that books executions at the maker's own price must violate C15
             cfg9 = seq_cfg(work, "mc9", "MCSeq_quick", ["Inv_C15"], subst={"DevStatsOwnPrice": "TRUE"})
             r9 = tlc("MCSeq", cfg9, work, workers=8, timeout=3000)
@@ -309,6 +311,16 @@ def seq_cfg(work, name, base, invs, subst=None, emit=False):
     return p
 
 
+def transformed(sc, i, scale=True):
+    """input corners the model's small numbers cannot carry directly: the harness scales quantities, shifts
+    timestamps and switches the id format on the way in and undoes it on the way out (harness/src/model.rs)"""
+    if scale:
+        sc["scale"] = [1 << 40, 999999999989][i % 2]
+    sc["tsoff"] = str([0, 1800000000000000, (1 << 64) - 100000][i % 3])     # ms now-ish in microseconds; the 64-bit limit
+    sc["ulid"] = (i % 4 == 3)
+    return sc
+
+
 def check_seq(prop, tier):
     res = Result(prop, tier, "model_checking")
     work = Work(prop)
@@ -415,9 +427,13 @@ def check_seq(prop, tier):
             for c in calls:
                 if c["op"] == "add" and c["o"]["kind"] == "Reserve" and c["o"]["amt"] == -1:
                     c["o"]["amt"] = rng.choice([1, 2, 5, 80])      # the default amount (80) is a constant: it does not scale
-            sc = scen.seq_scenario(calls)
-            sc["scale"] = [1 << 40, 999999999989][i % 2]
-            hs2.append(sc)
+            if prop == "C01" and i % 2 == 0:
+                # C01 names "rebuild from a snapshot or serialized form" among the operations: every restore path,
+                # with honest and falsified aggregate figures (not in scaled runs: the falsified figures are constants)
+                import snap_checks
+                hs2.append(transformed(scen.seq_scenario(snap_checks.with_restores(calls, rng, i % 4 == 0)), i, scale=False))
+                continue
+            hs2.append(transformed(scen.seq_scenario(calls), i))
         h2 = run_harness("level", hs2, work, "tv", timeout=3000)
         s2 = tv(h2["trace"], "MCTraceSeq", "TraceSeq", work, timeout=6000)
         res.add(traces_validated_against_impl=s2["execs"], calls_validated=s2["calls"], calls_conforming=s2["conform"],
